@@ -98,6 +98,12 @@ func (buf *BipBuffer) Commit(n int) []byte {
 	if toCommit > n {
 		toCommit = n
 	}
+	if toCommit == 0 {
+		// Nothing was claimed: there is nothing to commit, so do not move any region.
+		buf.claimHead = 0
+		buf.claimTail = 0
+		return nil
+	}
 	var head, tail int
 	if buf.Committed() == 0 {
 		buf.head = buf.claimHead
